@@ -101,18 +101,18 @@ def check_bracketing(plan, impl, out):
             if not both and ctx in ("enter", "exit"):
                 continue      # only frames that record both ends can be bracketed
             if ctx == "enter":
-                if state.get(frame):
+                if state.get((framer, frame)):
                     out.violate("bracketing", "frame entered twice without exit", "tick %d frame %s of %s" % (e[0], frame, framer))
                     return
-                state[frame] = True
+                state[(framer, frame)] = True
                 entered.setdefault(framer, []).append(frame)
             elif ctx == "exit":
-                if not state.get(frame):
+                if not state.get((framer, frame)):
                     out.violate("bracketing", "frame exited without having been entered", "tick %d frame %s of %s" % (e[0], frame, framer))
                     return
-                state[frame] = False
+                state[(framer, frame)] = False
                 entered[framer].remove(frame)
-            elif ctx in ("recur", "precur", "renter", "rexit") and not state.get(frame) and both:
+            elif ctx in ("recur", "precur", "renter", "rexit") and not state.get((framer, frame)) and both:
                 out.violate("bracketing", "action of a frame that is not entered", "tick %d %s ran in frame %s of %s which is not entered" % (e[0], ctx, frame, framer))
                 return
             continue
